@@ -412,6 +412,8 @@ def v_is_none(v):
         return v.isnone
     if isinstance(v, (SGuard, SEnum)):
         return b_or(*[b_and(g, v_is_none(x)) for g, x in as_guards(v)])
+    if hasattr(v, "__pyvc_is_none__"):
+        return v.__pyvc_is_none__()
     return False
 
 
